@@ -1,6 +1,6 @@
 SPECIFICATION Spec
 CONSTANTS
-  Catalogue <- CatFull
+  Catalogue <- CatBig
   DiskC = "A"
   DiskR = "A"
   Feat = {"msg", "poll", "stop"}
